@@ -63,6 +63,15 @@ func (c *client) Dial(ctx context.Context) error {
 		c.conn = conn
 		c.connM.Unlock()
 
+		select {
+		case <-c.done:
+			// the client was closed while the connection was being made,
+			// before fail() could see it: close it here
+			conn.Close()
+			return
+		default:
+		}
+
 		// time out send hello if it take long
 		if deadline, ok := ctx.Deadline(); ok {
 			if err = c.conn.SetWriteDeadline(deadline); err != nil {
